@@ -197,6 +197,54 @@ let run_case (line : string) : string =
            let env = { M.e_bound = true; e_params = binds; e_progs = progs; e_ufuncs = ufs;
                        e_runtime = true; e_now = Some M.Z0 } in
            print_res (M.exec (Lazy.force big_fuel) env entry) print_log)
+  | "jsonbind" ->
+      let src = decode_src (next t) in
+      let jb = parse_binds t in
+      let db = parse_binds t in
+      let bad = ref false in
+      let binds = List.fold_left (fun m (k, v) ->
+        match M.json_of_value v with
+        | Some j -> M.map_insert m k (M.value_of_json j)
+        | None -> bad := true; m) db jb in
+      if !bad then "BADCASE value has no JSON form" else
+      (match M.compile_source (nat_of_int (List.length src + 20000)) src with
+       | M.COk (p, _) ->
+           let env = { M.e_bound = true; e_params = binds; e_progs = [(bytes_of_ascii "main", p.M.pr_code)]; e_ufuncs = [];
+                       e_runtime = true; e_now = Some M.Z0 } in
+           print_res (M.exec (Lazy.force big_fuel) env (bytes_of_ascii "main")) (fun _ -> "")
+       | M.CSyntax l -> "CERR Esyn:" ^ loc_str l
+       | M.CPanic -> "PANIC" | M.CFuel -> "MODEL_FUEL" | M.CUnmod -> "UNMOD")
+  | "history" ->
+      let ops = ref [] in
+      let num () = cz_of_dec (next t) in
+      while peek t <> None do
+        (match next t with
+         | "addp" -> let c = num () in let n = bytes_of_hex (next t) in let src = decode_src (next t) in
+                     ops := M.OAddProgram (c, n, src) :: !ops
+         | "bind" -> let b = num () in let n = bytes_of_hex (next t) in let v = parse_value t in
+                     ops := M.OBind (b, n, v) :: !ops
+         | "clonec" -> let f = num () in let to_ = num () in ops := M.OCloneCtx (f, to_) :: !ops
+         | "cloneb" -> let f = num () in let to_ = num () in ops := M.OCloneBind (f, to_) :: !ops
+         | "exec" -> let c = num () in let b = num () in let n = bytes_of_hex (next t) in
+                     ops := M.OExec (c, b, n) :: !ops
+         | "params" -> let c = num () in let n = bytes_of_hex (next t) in ops := M.OParams (c, n) :: !ops
+         | ";" -> ()
+         | o -> raise (Parse_error ("history op " ^ o)))
+      done;
+      let (_, outs) = M.run_ops (nat_of_int 30000) M.empty_world (List.rev !ops) in
+      let unmod = ref false in
+      let strs = List.map (function
+        | M.OutNone -> "-"
+        | M.OutCompileError l -> "CERR Esyn:" ^ loc_str l
+        | M.OutResult (M.ROk v) -> "OK " ^ string_of_value v
+        | M.OutResult (M.RErr e) -> "ERR " ^ tok_of_err e
+        | M.OutResult M.RUnmod -> unmod := true; "UNMOD"
+        | M.OutResult M.RPanic -> "PANIC"
+        | M.OutResult M.RFuel -> "MODEL_FUEL"
+        | M.OutParams (Some ps) -> "PARAMS( " ^ String.concat " " (List.map hex_of_bytes ps) ^ " )"
+        | M.OutParams None -> "NOPROG"
+        | M.OutUnmodelled -> unmod := true; "UNMOD") outs in
+      if !unmod then "UNMOD" else String.concat " ; " strs
   | "func" ->
       (* func <name> <this> L( args ) *)
       let name = bytes_of_hex (next t) in
